@@ -33,6 +33,8 @@ VERIF = os.path.dirname(os.path.dirname(os.path.abspath(__file__)))
 REPO = os.path.abspath(os.environ.get("VF_REPO", "/repo"))
 DEPS = os.path.join(VERIF, ".deps")
 WORK_ROOT = os.path.join(VERIF, ".work")
+EVIDENCE_DIR = os.environ.get("VF_EVIDENCE_DIR") or os.path.join(VERIF, "evidence")
+REPLAY_DIR = os.environ.get("VF_REPLAY_DIR") or os.path.join(VERIF, "replays")
 PY = os.environ.get("VF_PYTHON", "/venv/bin/python")
 
 
@@ -309,12 +311,12 @@ def finish(mod, ctx: Ctx, t0: float, nworkers: int, dead_workers: List[str]
         else:
             new_viol[key] = wl[0]
 
-    os.makedirs(os.path.join(VERIF, "replays"), exist_ok=True)
+    os.makedirs(REPLAY_DIR, exist_ok=True)
     lines = []
     for key, w in sorted(new_viol.items()):
         fn = "%s_%s.json" % (pid, hashlib.blake2b(
             key.encode(), digest_size=5).hexdigest())
-        path = os.path.join(VERIF, "replays", fn)
+        path = os.path.join(REPLAY_DIR, fn)
         with open(path, "w") as f:
             json.dump(w, f, indent=1)
         lines.append("VIOLATION property=%s replay=%s  # %s (x%d) gen=%s case=%d"
@@ -364,11 +366,11 @@ def finish(mod, ctx: Ctx, t0: float, nworkers: int, dead_workers: List[str]
         "wall_s": round(wall, 3),
         "violations": int(sum(ctx.viol_count[k] for k in new_viol)),
     }
-    os.makedirs(os.path.join(VERIF, "evidence"), exist_ok=True)
-    tmp = os.path.join(VERIF, "evidence", ".%s.json.tmp" % pid)
+    os.makedirs(EVIDENCE_DIR, exist_ok=True)
+    tmp = os.path.join(EVIDENCE_DIR, ".%s.json.tmp" % pid)
     with open(tmp, "w") as f:
         json.dump(ev, f, indent=1)
-    os.replace(tmp, os.path.join(VERIF, "evidence", "%s.json" % pid))
+    os.replace(tmp, os.path.join(EVIDENCE_DIR, "%s.json" % pid))
 
     for ln in lines:
         print(ln)
